@@ -141,7 +141,7 @@ func (s *Sorts) Zero(t types.Type) string {
 		}
 		return "0"
 	case *types.Slice:
-		return "nilslice"
+		return "(mkslice 0 0)"
 	case *types.Array:
 		return fmt.Sprintf("((as const %s) %s)", s.SortOf(t), s.Zero(u.Elem()))
 	case *types.Struct:
